@@ -4,7 +4,7 @@
 # passes the whole suite, and its demonstration fails with it and passes without it.
 # Writes <srcdir>/confirm.json and removes the worktree.
 set -u
-ID=$1; M=$2; SRC=$3; DEST=$4; RUN=${5:-Seed}
+ID=$1; M=$2; SRC=$3; DEST=$4; RUN=${5:-(?i)seed}
 export GOFLAGS=-mod=mod GOPROXY=off GOSUMDB=off GOTOOLCHAIN=local
 WT=/tmp/confirm_${ID}_${M}
 LOG=$SRC/confirm.log
